@@ -342,6 +342,19 @@ type InfixExpression struct {
 	Right Node
 }
 
+func sameAssociativeOperator(op *token.Token, right Node) bool {
+	r, ok := right.(*InfixExpression)
+	if !ok || r.Type() != op.Type() {
+		return false
+	}
+	switch op.Type() { //nolint:exhaustive // only the associative operators.
+	case token.PLUS, token.ASTERISK, token.AND, token.OR, token.BITAND, token.BITOR, token.BITXOR:
+		return true
+	default:
+		return false
+	}
+}
+
 func (i InfixExpression) PrettyPrint(out *PrintState) *PrintState {
 	needParen, oldPrecedence := out.needParen(i.Token)
 	if needParen {
@@ -356,6 +369,12 @@ func (i InfixExpression) PrettyPrint(out *PrintState) *PrintState {
 	if i.Right == nil {
 		out.Print("nil")
 	} else {
+		// Binary operators are parsed left associative: a right operand of the
+		// same precedence, like in a - (b - c), must keep its parentheses.
+		// Only a repeated associative operator, like 1 + (2 + 3), can drop them.
+		if !sameAssociativeOperator(i.Token, i.Right) {
+			out.ExpressionPrecedence++
+		}
 		i.Right.PrettyPrint(out)
 	}
 	if needParen {
